@@ -1,3 +1,80 @@
-use crate::SearchResult;
-pub fn search(_seed: u64, _full: bool, _rt: &tokio::runtime::Runtime) -> SearchResult { SearchResult { evaluations: 0, failures: vec![], summary: "not yet implemented".into() } }
-pub fn replay(_case: &[&str], _rt: &tokio::runtime::Runtime) -> (bool, String) { (false, "not yet implemented".into()) }
+//! C05: non-membership soundness on real trees — every ancestor of the query as claimed longest prefix.
+//! Expected (contract verify_base/verify_nonmembership#E_sound): a proof for a MEMBER is never accepted; for a
+//! non-member only the deepest matching node is accepted as anchor (and that honest proof IS accepted).
+use crate::{Failure, SearchResult};
+use akd_core::{ExampleLabel, ExperimentalConfiguration, WhatsAppV1Configuration};
+
+fn run_case(cfg: &str, leaves: &[u16], q: u16, rt: &tokio::runtime::Runtime, out: &mut Vec<Failure>) -> u64 {
+    let r = if cfg == "whatsapp_v1" {
+        rt.block_on(akd::vx_export::c05_anchor_scan::<WhatsAppV1Configuration>(leaves, q))
+    } else {
+        rt.block_on(akd::vx_export::c05_anchor_scan::<ExperimentalConfiguration<ExampleLabel>>(leaves, q))
+    };
+    let (member, cands) = match r { Ok(x) => x, Err(_) => return 0 };
+    let mut n = 0;
+    for (k, deepest, accepted) in cands {
+        n += 1;
+        let should = !member && deepest;
+        if accepted != should {
+            let mut case = vec!["c05".to_string(), cfg.to_string(), format!("{q:04x}")];
+            case.extend(leaves.iter().map(|l| format!("{l:04x}")));
+            let sound = accepted && !should;
+            out.push(Failure {
+                clause: if sound { "verify_base/verify_nonmembership#E_sound".into() } else { "verify_base/verify_nonmembership#completeness".into() },
+                case,
+                input: format!("[{cfg}] leaves {:04x?}, query {q:04x} ({}), anchor = its ancestor of length {k}{}", leaves, if member { "a MEMBER" } else { "not a member" }, if deepest { " (deepest)" } else { "" }),
+                expected: if should { "accepted".into() } else { "rejected".into() },
+                observed: if accepted { "accepted".into() } else { "rejected".into() },
+                finding_id: None,
+            });
+        }
+    }
+    n
+}
+
+fn leaf_sets(seed: u64, full: bool) -> Vec<Vec<u16>> {
+    let mut v: Vec<Vec<u16>> = vec![
+        vec![0x0000, 0x2000, 0x8000],
+        vec![0x0000, 0x0001],
+        vec![0x0000, 0x8000],
+        vec![0x4000],
+        vec![0x0000, 0x4000, 0x8000, 0xc000],
+        vec![0x00ff, 0x0100, 0x01ff, 0x0200, 0xff00, 0xff01],
+        vec![0x0080, 0x00c0, 0x00e0, 0x00f0],
+        vec![0x7fff, 0x8000],
+    ];
+    let mut r = crate::rng::Rng(seed ^ 0xC05);
+    for _ in 0..(if full { 60 } else { 8 }) {
+        let n = 2 + r.below(6) as usize;
+        let mut s: Vec<u16> = (0..n).map(|_| { let sh = r.below(12); ((r.next() & 0xffff) as u16) >> sh << (r.below(8)) }).collect();
+        s.sort(); s.dedup();
+        v.push(s);
+    }
+    v
+}
+
+pub fn search(seed: u64, full: bool, rt: &tokio::runtime::Runtime) -> SearchResult {
+    let mut out = vec![];
+    let mut n = 0;
+    for leaves in leaf_sets(seed, full) {
+        let mut queries: Vec<u16> = leaves.clone();
+        for l in &leaves { for b in 0..16 { queries.push(l ^ (1 << b)); } }
+        queries.sort(); queries.dedup();
+        for cfg in ["whatsapp_v1", "experimental"] {
+            for &q in &queries {
+                n += run_case(cfg, &leaves, q, rt, &mut out);
+                if out.len() > 30 { break; }
+            }
+        }
+        if out.len() > 30 { break; }
+    }
+    SearchResult { evaluations: n, failures: out, summary: "non-membership proofs assembled from real nodes: every ancestor of every member and of every 1-bit neighbour as claimed longest prefix, fixed and seeded random leaf sets, both configurations".into() }
+}
+
+pub fn replay(case: &[&str], rt: &tokio::runtime::Runtime) -> (bool, String) {
+    let q = u16::from_str_radix(case[1], 16).unwrap();
+    let leaves: Vec<u16> = case[2..].iter().map(|s| u16::from_str_radix(s, 16).unwrap()).collect();
+    let mut out = vec![];
+    run_case(case[0], &leaves, q, rt, &mut out);
+    match out.first() { Some(f) => (true, format!("{}: expected {}, observed {}", f.input, f.expected, f.observed)), None => (false, "holds".into()) }
+}
